@@ -1,4 +1,17 @@
-"""C11 -- validation output is deterministic and ordered by position (partial: the final sort decides the order).
+"""C11 -- validation output is deterministic and ordered by position.
+
+Two parts.  ORDER (below): the final sort.  HASH ORDER (hash_part): every place where the iteration order of a hash container
+could reach the output is examined -
+  (a) the key -> kind map is collected from the stored files in hash order; z3 decides whether two iteration orders of the same
+      files can give different maps (last-wins collection: yes, when two files register one key with different kinds);
+  (b) the choices `resolve_type` / `check_declared_parcelables` make among a file's imports: self-composition (engine T, the
+      function executed twice on the same inputs with independent hash orders; z3 on every pair of paths with different outcomes);
+  (c) diagnostics pushed while iterating a hash container have pairwise distinct statement ranges on every path, so the stable
+      sort leaves no hash-dependent tie;
+  (d) the per-file results are collected into a map keyed by the file's own id (no order), each tagged with that id.
+Together with C12 (the state is a finite map id -> parse result) and C13 (a file's result is a function of its own stored
+result and the key map) this covers repeated calls, new parsers, insertion orders and hash seeds.  Threads / processes add
+nothing the crate can observe (no global state: C12).
 
 Engine M.  From the MIR of validate's per-file closure of the current tree:
   (1) the key of the final sort on the file's diagnostics is translated and z3 decides, over unbounded integers, whether two
@@ -41,7 +54,7 @@ def key_eq(k1, k2):
     return k1 == k2
 
 
-def check(run):
+def sort_part(run):
     prog = mir.Program(mir.dump_mir())
     structs, enums = mir.layouts()
     run.functions += ['validation::validate per-file closure (%s)' % src_line('src/validation.rs', '.map(|(id, mut fr)|'),
@@ -191,3 +204,170 @@ def native_ties():
     files = {'a.aidl': 'package p;\n' + imports + 'interface I {\n' + methods + '}\n'}
     r = replay.determinism(files, 80)
     return {'distinct': r.get('distinct', 0), 'crash': r.get('crash')}
+
+
+def native_ambiguous():
+    """projects in which one file has two imports with the same simple name: validate repeatedly on fresh parsers"""
+    out = {}
+    for name, files in (('type', {'a.aidl': 'package p; import q.X; import r.X; interface A { void f(in X b); }', 'b1.aidl': 'package q; parcelable X { int x; }', 'b2.aidl': 'package r; interface X { void g(); }'}),
+                        ('declared', {'a.aidl': 'package p; import q.X; import r.X; parcelable X; interface A { void f(in X b); }'})):
+        out[name] = replay.determinism(files, 60).get('distinct', 0)
+    return out
+
+
+def native_key_collision():
+    files = {'a.aidl': 'package p; import p.B; interface A { void f(in B b); }', 'b1.aidl': 'package p; parcelable B { int x; }', 'b2.aidl': 'package p; interface B { void g(); }'}
+    return replay.determinism(files, 60).get('distinct', 0)
+
+
+def _choice_task(job):
+    import nonint
+    kind, cfg = job
+    t0 = time.time()
+    try:
+        if kind == 'resolve':
+            r = nonint.choice_pair_resolve(_S, *cfg)
+        elif kind == 'declared':
+            r = nonint.choice_pair_declared(_S, *cfg)
+        else:
+            n, bad = nonint.hash_ordered_ranges(_S)
+            r = (n, 0, [{'what': b} for b in bad])
+        return kind, cfg, r, None, time.time() - t0
+    except mir.Unsupported as e:
+        return kind, cfg, (0, 0, []), str(e), time.time() - t0
+
+
+_S = None
+
+
+def hash_part(run):
+    global _S
+    import itertools
+    import multiprocessing as mp
+    import framecheck
+    import travcheck as tc
+    prog = mir.Program(mir.dump_mir())
+    run.functions += ['Parser::collect_item_keys (%s)' % src_line('src/parser.rs', 'fn collect_item_keys'),
+                      'validation::resolve_type (%s)' % src_line('src/validation.rs', 'fn resolve_type('),
+                      'validation::check_declared_parcelables (%s)' % src_line('src/validation.rs', 'fn check_declared_parcelables'),
+                      'validation::check_imports (%s)' % src_line('src/validation.rs', 'fn check_imports')]
+    run.bounds += ['key-map collection: 2 and 3 stored files, every pair of iteration orders, keys and kinds unconstrained',
+                   'hash-order choices: <= 2 imports (3 thorough), <= 2 forward declarations, unbounded strings']
+    # (a) key map
+    t0 = time.time()
+    try:
+        ok, n, bad = framecheck.collect_keys(prog)
+        if not ok:
+            raise mir.Unsupported('collect_item_keys has an unexpected shape: %s' % bad[0])
+        nq, wit = 0, None
+        for nfiles in (2, 3):
+            has = [z3.Bool('has%d' % i) for i in range(nfiles)]
+            key = [z3.Int('key%d' % i) for i in range(nfiles)]
+            kind = [z3.Int('kind%d' % i) for i in range(nfiles)]
+            k = z3.Int('k')
+
+            def collected(order):
+                e = z3.IntVal(-1)          # last entry in iteration order wins (HashMap::from_iter / extend)
+                for i in order:
+                    e = z3.If(z3.And(has[i], key[i] == k), kind[i], e)
+                return e
+            perms = list(itertools.permutations(range(nfiles)))
+            for pa, pb in itertools.combinations(perms, 2):
+                s = z3.Solver()
+                s.add(*[z3.And(kd >= 0, kd <= 2) for kd in kind])
+                s.add(collected(pa) != collected(pb))
+                nq += 1
+                if s.check() == z3.sat and wit is None:
+                    m = s.model()
+                    wit = {'files': [{'has_tree': bool(m.eval(has[i], True)), 'key': m.eval(key[i], True).as_long(), 'kind': m.eval(kind[i], True).as_long()} for i in range(nfiles)],
+                           'order_a': pa, 'order_b': pb}
+        if wit is None:
+            run.holds('the key -> kind map does not depend on the hash order in which the stored files are visited', 'M', queries=nq, solver_s=time.time() - t0)
+        else:
+            d = native_key_collision()
+            wit['native_distinct_outputs'] = d
+            run.violated('the key -> kind map does not depend on the hash order in which the stored files are visited', 'M', 'item-key-collision:last-in-hash-order-wins', wit, d > 1,
+                         queries=nq, solver_s=time.time() - t0, detail='two files with a tree register the same key with different kinds: the collected map keeps whichever is visited last')
+    except mir.Unsupported as e:
+        run.inconclusive('key map collection', 'M', str(e))
+    # (d) per-file results keyed by id
+    try:
+        ok, detail = results_keyed_by_id(prog)
+        if ok:
+            run.holds('validate collects the per-file results into a map keyed by the file\'s own id, each tagged with that id (no order involved)', 'M', detail=detail)
+        else:
+            run.violated('validate collects the per-file results keyed by id', 'M', 'results-not-keyed-by-id', {'detail': detail}, native_two_orders().get('distinct', 1) > 1, detail=detail)
+    except mir.Unsupported as e:
+        run.inconclusive('result collection', 'M', str(e))
+    # (b), (c)
+    try:
+        _S = tc.Setup()
+    except (mir.Unsupported, RuntimeError) as e:
+        run.inconclusive('engine T set-up', 'T', str(e)); return
+    jobs = [('resolve', (2, 0, 1)), ('resolve', (2, 1, 1)), ('declared', (1, 2, 0)), ('declared', (2, 2, 1)), ('ranges', ())]
+    if run.tier == 'thorough':
+        jobs += [('resolve', (3, 0, 1)), ('resolve', (2, 0, 2)), ('declared', (2, 3, 1))]
+    with mp.Pool(len(jobs)) as pool:
+        res = pool.map(_choice_task, jobs)
+    nat = None
+    for kind, cfg, (pairs, nq, viol), err, secs in res:
+        title = {'resolve': 'resolve_type gives the same classification whatever the iteration order of the import set (%d imports, %d forward declarations, %d keys)',
+                 'declared': 'check_declared_parcelables gives the same diagnostics whatever the iteration order of the import map (%d declarations, %d imports, %d resolved keys)',
+                 'ranges': 'diagnostics pushed while iterating a hash container have pairwise distinct statement ranges on every path (no hash-dependent tie for the stable sort)'}[kind]
+        title = title % cfg if cfg else title
+        run.states += pairs
+        if err:
+            run.inconclusive(title, 'T', err)
+        elif any(v['what'].startswith('solver returned unknown') for v in viol):
+            run.inconclusive(title, 'T', 'solver returned unknown on a pair of paths')
+        elif viol:
+            if nat is None:
+                nat = native_ambiguous()
+            rep = {'resolve': nat['type'] > 1, 'declared': nat['declared'] > 1, 'ranges': native_ties().get('distinct', 1) > 1}[kind]
+            key = {'resolve': 'hash-order-choice:resolve_type', 'declared': 'hash-order-choice:check_declared_parcelables', 'ranges': 'hash-ordered-tie'}[kind]
+            run.violated(title, 'T', key, {'solver': viol[:2], 'native_distinct_outputs': nat}, rep, queries=nq, solver_s=secs, detail=viol[0]['what'], bound='unbounded strings')
+        else:
+            run.holds(title, 'T', queries=max(1, nq), solver_s=secs, bound='unbounded strings; %d path pairs' % pairs)
+
+
+def results_keyed_by_id(prog):
+    outer = [f for f in prog.fns if re.search(r'(^|::)validation::validate$|^validate$', f.name) and '::verif' not in f.name]
+    if len(outer) != 1:
+        raise mir.Unsupported('validate: %d candidates' % len(outer))
+    t = ' '.join(' '.join(b) for b in outer[0].blocks.values())
+    if not (re.search(r'IntoIterator>::into_iter\(', t) and re.search(r'as Iterator>::map::<', t) and re.search(r'as Iterator>::collect::<(?:std::collections::)?HashMap<ID, ', t)):
+        return False, 'validate is not into_iter().map(closure).collect::<HashMap<ID, _>>()'
+    cl = [f for f in prog.fns if re.search(r'(^|::)validate::\{closure#0\}$', f.name)]
+    paths = mir.cfg_paths(cl[0])
+    n = 0
+    for pc, ev in paths:
+        s = z3.Solver(); s.add(*pc)
+        if s.check() != z3.sat:
+            continue
+        n += 1
+        defs = {}
+        for (_b, c, a, d) in ev:
+            defs[d] = (c, a)
+        ret = defs.get('_0')
+        if not ret or ret[0] != '=':
+            return False, 'the closure does not return a tuple'
+        m = re.search(r'_0 = \((?:move|copy) (_\d+), (?:move|copy) (_\d+)\)', ret[1])
+        if not m:
+            return False, 'the closure does not return (id, result): %s' % ret[1][:80]
+
+        def origin(l, depth=0):
+            c, a = defs.get(l, ('', ''))
+            mm = re.search(r'= (?:move|copy) (_\d+)$', a) if c == '=' else None
+            if mm and depth < 8:
+                return origin(mm.group(1), depth + 1)
+            return l, c, a
+        kid = origin(m.group(1))
+        # the key is the id that came in with the file: a field of the closure argument
+        if not (re.search(r'\(_2\.0: ID\)', kid[2]) or kid[0] == '_2'):
+            return False, 'the key of the result is not the id the file was stored under: %s' % kid[2][:80]
+    return True, '%d feasible paths' % n
+
+
+def check(run):
+    sort_part(run)
+    hash_part(run)
